@@ -82,6 +82,7 @@ def aircraft_state(sc, name):
     a = sc._airplanes[name]
     return dict(v=np.array(a.v, dtype=float).tolist(), w=np.array(a.w, dtype=float).tolist(),
                 p=np.array(a.p_bar, dtype=float).tolist(), q=np.array(a.q, dtype=float).tolist(),
+                rate_frame=getattr(a, "angular_rate_frame", "body"),        # part of the state: selects the axes of the damping derivatives
                 controls={k: float(v) if not isinstance(v, (list, np.ndarray)) else v for k, v in a.current_control_state.items()},
                 delta_flap={s.name: np.array(s._delta_flap, dtype=float).tolist() for s in a.segments})
 
